@@ -75,7 +75,7 @@ pub fn realize_bad_debt(
     messages: &mut Vec<SubMsg>,
     state: &mut State,
 ) -> Uint128 {
-    if state.prepaid_bad_debt > bad_debt {
+    if state.prepaid_bad_debt >= bad_debt {
         // no need to move extra tokens because vault already prepay bad debt, only need to update the numbers
         state.prepaid_bad_debt = state.prepaid_bad_debt.checked_sub(bad_debt).unwrap();
     } else {
